@@ -60,12 +60,12 @@ def gen_heap(kind, depth, simulate, seed, part, parts):
     if kind == "angle":
         from pymeeus.Angle import Angle as Cls
         mk = lambda k: Cls(k / 16.0)
-        val = lambda o: o._deg
+        val = lambda o: o()
         setv = lambda o, k: o.set(k / 16.0)
     else:
         from pymeeus.Epoch import Epoch as Cls
         mk = lambda k: Cls(J0 + k / 16.0)
-        val = lambda o: o._jde - J0
+        val = lambda o: o.jde() - J0
         setv = lambda o, k: o.set(J0 + k / 16.0)
     behs, _ = tlc_behaviours(kind, depth, simulate, seed)
     for bi, beh in enumerate(behs):
